@@ -79,7 +79,7 @@ int main(int argc, char **argv)
                      "is_identity/is_scale/is_int_translate 8^9; is_inverse 1024^2; double->fixed 9 x 74^2; f_transform family 1024 matrices x (1024 partners + 343 vectors + "
                      "9 x 21^2 parameters + 100 boxes); f_invert 6^9"
                    : "transform_point/point_3d: 9 variables (row0,row2,v; row1 = rotated row0) over A7 extremes (7^9 = 4.0e7), A7 rounding (7^9) and a w sweep (w = c*d, c,d over 37 "
-                     "magnitudes, x 7^5); 48.16 entry points 3^3 x 5^3 x 11^3; multiply 21^6 = 8.6e7; scale/rotate/translate: 21^2 parameters x 3 NULL patterns x 243 matrix pairs; "
+                     "magnitudes, x 7^5); 48.16 entry points 3^3 x 5^3 x 11^3; multiply 21^6 = 8.6e7; scale/rotate/translate: 21^2 parameters x 3 NULL patterns x 1215 matrix pairs (5 last rows: projective, affine with w = 2, 1/2, -1, and m21 != 0); "
                      "bounds: 62500 matrices (5^6 x 4 last rows) x 100 boxes; invert 5^9 + 7^6 x 4 last rows; is_identity/is_scale/is_int_translate 6^9; is_inverse 243^2; "
                      "double->fixed 9 x 74^2; f_transform family 243 matrices x (243 partners + 343 vectors + 9 x 21 x 11 parameters + 100 boxes); f_invert 5^9";
     vf_assume("the reference is exact integer arithmetic in __int128 written from the statement (round to nearest, either neighbour on a tie, one unit outside |w|<65536)");
